@@ -198,12 +198,14 @@ def c12(tier):
 def c19(tier):
     t0 = time.time()
     cfgs = sets.COST_QUICK + (sets.COST_THOROUGH if tier == "thorough" else [])
-    total = 70 + (1 if tier == "thorough" else 0)
+    total = 71 + (1 if tier == "thorough" else 0)
     cov, viols, inc = sets.run_engine("C19", tier, cfgs, total, total, extra_args=["--big"] if tier == "thorough" else [], crash_owners=("C19",))
     cov["rule"] = ("comparator-call counter read before/after each call: FlatSets of n = 0..64, 100, 500, 1000, 4096 (+20000 thorough) elements, every key rank "
                    "(present) and every gap (absent) for n<=64, 200 sampled ranks above, for find/contains/count/lower_bound/upper_bound/equal_range/insert/emplace/"
                    "erase(key) (bound 2*ceil(log2(n+1))+4) and insertion with every correct hint (bound 6); inline SmallSets N=1..8 x every fill x every key "
-                   "(bound 2N+2). distinct cell = (configuration, size class); evaluations = monitored calls")
+                   "(bound 2N+2); SmallSets (N = 1, 4, 8) over a FlatSet in their large state with 2..1500 elements: find/contains/count/insert/emplace/erase(key)/"
+                   "extract/insert(node) within the logarithmic bound, insert / emplace_hint / insert(node) with the correct hint within 6. "
+                   "distinct cell = (configuration, size class); evaluations = monitored calls")
     return core.finish("C19", tier, "exploration", cov, viols, inc, t0, ASSUME_SAN, min_evals=1000)
 
 
